@@ -87,6 +87,14 @@ func inter(a, b sset) sset {
 	for k := range a {
 		if b[k] {
 			n[k] = true
+			continue
+		}
+		// held for writing on one side and for reading on the other: held for reading
+		if strings.HasSuffix(k, "/W") && b[strings.TrimSuffix(k, "/W")+"/R"] {
+			n[strings.TrimSuffix(k, "/W")+"/R"] = true
+		}
+		if strings.HasSuffix(k, "/R") && b[strings.TrimSuffix(k, "/R")+"/W"] {
+			n[k] = true
 		}
 	}
 	return n
